@@ -23,10 +23,10 @@ pub enum AccessPolicy {
 
 impl AccessPolicy {
     /// Find the corresponding closing parenthesis in the boolean expression
-    /// given as a string.
+    /// given as a string. Returns its byte offset.
     fn find_matching_closing_parenthesis(boolean_expression: &str) -> Result<usize, Error> {
         let mut count = 0;
-        for (index, c) in boolean_expression.chars().enumerate() {
+        for (index, c) in boolean_expression.char_indices() {
             match c {
                 '(' => count += 1,
                 ')' => count -= 1,
@@ -105,8 +105,10 @@ impl AccessPolicy {
             } else if e == "*" {
                 return Ok(Self::conjugate(Self::Broadcast, q.into_iter()));
             } else {
-                match &e[..1] {
-                    "(" => {
+                // All delimiters are one-byte characters, which makes slicing
+                // right after them valid even if `e` holds multi-byte ones.
+                match e.chars().next() {
+                    Some('(') => {
                         let offset = Self::find_matching_closing_parenthesis(&e[1..])?;
                         q.push_back(Self::parse(&e[1..1 + offset]).map_err(|err| {
                             Error::InvalidBooleanExpression(format!(
@@ -115,8 +117,8 @@ impl AccessPolicy {
                         })?);
                         e = &e[2 + offset..];
                     }
-                    "|" => {
-                        if e[1..].is_empty() || &e[1..2] != "|" {
+                    Some('|') => {
+                        if !e[1..].starts_with('|') {
                             return Err(Error::InvalidBooleanExpression(format!(
                                 "invalid separator in: '{e}'"
                             )));
@@ -127,8 +129,8 @@ impl AccessPolicy {
                         let lhs = Self::conjugate(base, q.into_iter());
                         return Ok(lhs | Self::parse(&e[2..])?);
                     }
-                    "&" => {
-                        if e[1..].is_empty() || &e[1..2] != "&" {
+                    Some('&') => {
+                        if !e[1..].starts_with('&') {
                             return Err(Error::InvalidBooleanExpression(format!(
                                 "invalid leading separator in: '{e}'"
                             )));
@@ -140,7 +142,7 @@ impl AccessPolicy {
                         }
                         e = &e[2..];
                     }
-                    ")" => {
+                    Some(')') => {
                         return Err(Error::InvalidBooleanExpression(format!(
                             "unmatched closing parenthesis in '{e}'"
                         )));
